@@ -5,6 +5,19 @@
 use std::rc::Rc;
 use std::collections::BTreeMap;
 
+// C06, static half: shape compatibility ("narrowing") of the type checker, src/ast/mod.rs Shape::narrow ... is_list_subset_cached.
+// Oracle (prelude/shape_narrow_spec.rs, from the property statement and reference/typechecking.md, not from the code):
+// the recursive predicate compat(a, b) over the real Shape enum. Proved for ALL shapes without a ConstraintRef inside
+// (`cref_free`; units shape_narrow_cref / shape_narrow_term cover named constraints):
+//   narrow / narrow_cached(a, b) returns a TypeErr  <=>  !compat(a, b);
+//   otherwise it returns a or b, and the more specific one where that is defined (np_side, np_tuple, np_list);
+//   the memo cache `seen` is untouched and the symbol table keeps exactly its names (only entries of type holes are refined);
+//   termination (measure: combined number of Shape nodes) and no panic (C04).
+// lemma_compat_sym: the oracle does not depend on which side is the exemplar ("either direction").
+// Under contract: Shape::narrow, narrow_cached (all arms except the two below), narrow_tuple_shapes_cached,
+// narrow_list_shapes_cached, is_tuple_subset_cached, is_list_subset_cached; no-panic/termination only: Shape::pos, with_pos,
+// type_name, NarrowedShape::{new_with_pos, with_pos}, PositionedItem::{new, new_with_pos, with_pos}.
+// STUBBED: the Func/Func and Module/Module arms of narrow_cached (see below); the ConstraintRef arm is unreachable here.
 verus! {
 //@ include prelude/core.rs
 //@ include prelude/constraint_rt_models.rs
@@ -15,18 +28,18 @@ verus! {
 // The Func/Func and Module/Module arms are NOT verified (function and module shapes are outside the property statement;
 // the recursion through BTreeMap values has no structural measure). They are cut off by an always-taken early return to
 // these stubs: ASSUMED contract = result is a type error iff the uninterpreted func_compat / module_compat says so, else a
-// clone of self; frame as everywhere else.
+// clone of self; the frame holds if no named constraint occurs inside (uninterpreted func_cref_free / module_cref_free).
 #[verifier::external_body]
 fn verif_skip_arm() -> (r: bool) ensures r { true }
 #[verifier::external_body]
 fn verif_narrow_func_arm(slf: &Shape, l: &FuncShapeDef, r: &FuncShapeDef, symbol_table: &mut BTreeMap<Rc<str>, Shape>, seen: &mut Vec<(Rc<str>, Shape, Shape)>) -> (res: Shape)
     ensures (res is TypeErr) == !func_compat(*l, *r), !(res is TypeErr) ==> res == *slf,
-        frame(old(symbol_table)@, final(symbol_table)@, old(seen)@, final(seen)@),
+        func_cref_free(*l) && func_cref_free(*r) ==> frame(old(symbol_table)@, final(symbol_table)@, old(seen)@, final(seen)@),
 { unimplemented!() }
 #[verifier::external_body]
 fn verif_narrow_module_arm(slf: &Shape, l: &ModuleShape, r: &ModuleShape, symbol_table: &mut BTreeMap<Rc<str>, Shape>, seen: &mut Vec<(Rc<str>, Shape, Shape)>) -> (res: Shape)
     ensures (res is TypeErr) == !module_compat(*l, *r), !(res is TypeErr) ==> res == *slf,
-        frame(old(symbol_table)@, final(symbol_table)@, old(seen)@, final(seen)@),
+        module_cref_free(*l) && module_cref_free(*r) ==> frame(old(symbol_table)@, final(symbol_table)@, old(seen)@, final(seen)@),
 { unimplemented!() }
 
 //@ extract src/ast/mod.rs :: impl Shape :: fn pos
@@ -129,7 +142,7 @@ fn verif_narrow_module_arm(slf: &Shape, l: &ModuleShape, r: &ModuleShape, symbol
         requires cref_free(*self), cref_free(*right)
         ensures
             // a type error exactly for shapes that are not compatible; otherwise one of the two shapes
-            narrow_post(*self, *right, r),
+            np_err(*self, *right, r), np_side(*self, *right, r), np_tuple(*self, *right, r), np_list(*self, *right, r),
             // the symbol table keeps exactly its names
             final(symbol_table)@.dom() =~= old(symbol_table)@.dom(),
 //@   >>>
@@ -147,7 +160,7 @@ fn verif_narrow_module_arm(slf: &Shape, l: &ModuleShape, r: &ModuleShape, symbol
             *self == Shape::Tuple(*left_slist), *right == Shape::Tuple(*right_slist),
             cref_free(*self), cref_free(*right),
         ensures
-            narrow_post(*self, *right, r),
+            np_err(*self, *right, r), np_side(*self, *right, r), np_tuple(*self, *right, r), np_list(*self, *right, r),
             frame(old(symbol_table)@, final(symbol_table)@, old(seen)@, final(seen)@),
         decreases sz(*self) + sz(*right), 0nat
 //@   >>>
@@ -171,7 +184,7 @@ fn verif_narrow_module_arm(slf: &Shape, l: &ModuleShape, r: &ModuleShape, symbol
             *self == Shape::List(*left_slist), *right == Shape::List(*right_slist),
             cref_free(*self), cref_free(*right),
         ensures
-            narrow_post(*self, *right, r),
+            np_err(*self, *right, r), np_side(*self, *right, r), np_tuple(*self, *right, r), np_list(*self, *right, r),
             frame(old(symbol_table)@, final(symbol_table)@, old(seen)@, final(seen)@),
         decreases sz(*self) + sz(*right), 0nat
 //@   >>>
